@@ -413,3 +413,365 @@ Proof.
     split; [reflexivity|]. split; [auto|]. split; [eapply select_callee_In; eauto|].
     intros k. rewrite cfs_invs, cget_cset. destruct (pair_eqb_spec k (cid0, idgen_next (s_invgen callee))); auto.
 Qed.
+
+(** ** Realm level: quiet steps *)
+Definition ikeys_sub_nm (d d' : dealer) : Prop :=
+  forall y i, y <> meta_id -> cget (d_invs d') (y, i) <> None -> cget (d_invs d) (y, i) <> None.
+
+Record qstep (r : realm) (o : list out) (r' : realm) : Prop := {
+  qs_noinv : noinv o;
+  qs_keys : ikeys_sub_nm (r_dealer r) (r_dealer r');
+  (* nobody becomes attached; generators do not go back *)
+  qs_back : forall y sy', lookup r' y = Some sy' -> exists sy, lookup r y = Some sy /\ s_invgen sy <= s_invgen sy';
+  qs_callees : forall y rid, not_callee y rid (r_dealer r) ->
+                 not_callee y rid (r_dealer r') \/ exists q, In (y, RRegistered q rid) o
+}.
+
+Lemma iks_nm : forall d d', ikeys_sub d d' -> ikeys_sub_nm d d'.
+Proof. intros d d' H y i _. apply H. Qed.
+
+Lemma back_same : forall r r', (forall y, lookup r' y = lookup r y) ->
+    forall y sy', lookup r' y = Some sy' -> exists sy, lookup r y = Some sy /\ s_invgen sy <= s_invgen sy'.
+Proof. intros r r' E y sy' H. rewrite E in H. exists sy'. split; [exact H|lia]. Qed.
+
+Lemma qstep_refl : forall r, qstep r [] r.
+Proof.
+  intros r. constructor; [apply noinv_nil|apply iks_nm, iks_refl|apply back_same; reflexivity|auto].
+Qed.
+
+Lemma qstep_seq : forall r o1 r1 o2 r2, qstep r o1 r1 -> qstep r1 o2 r2 -> qstep r (o1 ++ o2) r2.
+Proof.
+  intros r o1 r1 o2 r2 [A1 B1 C1 D1] [A2 B2 C2 D2]. constructor.
+  - now apply noinv_app.
+  - intros y i Hy H. apply (B1 y i Hy). apply (B2 y i Hy). exact H.
+  - intros y sy2 H. destruct (C2 y sy2 H) as (sy1 & H1 & L1). destruct (C1 y sy1 H1) as (sy & H0 & L0).
+    exists sy. split; [exact H0|lia].
+  - intros y rid N0. destruct (D1 y rid N0) as [N1|(q & Hq)].
+    + destruct (D2 y rid N1) as [N2|(q & Hq)]; [now left|]. right. exists q. apply in_or_app. now right.
+    + right. exists q. apply in_or_app. now left.
+Qed.
+
+Lemma qstep_dealer : forall r o r' d',
+    dq (r_dealer r) o d' -> r_dealer r' = d' -> (forall y, lookup r' y = lookup r y) -> qstep r o r'.
+Proof.
+  intros r o r' d' [A B C] E L. constructor; [exact A|rewrite E; apply iks_nm; exact B|apply back_same; exact L|].
+  intros y rid N0. left. rewrite E. eapply cle_not_callee; eauto.
+Qed.
+
+Lemma qstep_broker : forall r o r',
+    allb o -> r_dealer r' = r_dealer r -> (forall y, lookup r' y = lookup r y) -> qstep r o r'.
+Proof.
+  intros r o r' A E L. apply (qstep_dealer r o r' (r_dealer r)); [|exact E|exact L].
+  constructor; [apply allb_noinv; exact A|apply iks_refl|apply cle_refl].
+Qed.
+
+Lemma qstep_cons : forall r m o r', bmsg m = true -> qstep r o r' -> qstep r (m :: o) r'.
+Proof.
+  intros r m o r' Hm H. change (m :: o) with ([m] ++ o). eapply qstep_seq; [|exact H].
+  apply qstep_broker; [now apply allb_one|reflexivity|reflexivity].
+Qed.
+
+(** departure *)
+Lemma leave_qstep : forall r sid, qstep r (snd (leave r sid)) (fst (leave r sid)).
+Proof.
+  intros r sid.
+  destruct (find_session (r_clients r) sid) as [s|] eqn:F;
+    [|rewrite (leave_absent r sid F); apply qstep_refl].
+  pose proof (leave_frame r sid) as Fr. cbv zeta in Fr. destruct Fr as (_ & Fc & Fm & _).
+  assert (Back : forall y sy', lookup (fst (leave r sid)) y = Some sy' ->
+                               exists sy, lookup r y = Some sy /\ s_invgen sy <= s_invgen sy').
+  { intros y sy' H. exists sy'. split; [|lia]. unfold lookup in *. rewrite Fc, Fm in H.
+    destruct (N.eqb y meta_id); [exact H|].
+    destruct (N.eq_dec y sid) as [->|Hn]; [rewrite find_del_same in H; discriminate|now rewrite find_del_other in H]. }
+  revert Back. rewrite (leave_event_order r sid s F). unfold leave_core.
+  set (r2 := r_set_testaments (r_set_clients r (del_session (r_clients r) sid))
+                              (ndel (r_testaments (r_set_clients r (del_session (r_clients r) sid))) sid)).
+  change (r_dealer r2) with (r_dealer r).
+  pose proof (dealer_remove_session_dq (lookup r2) (r_dealer r) sid) as [D1 D2 D3].
+  destruct (dealer_remove_session (lookup r2) (r_dealer r) sid) as [[d o1] mps]. cbn [fst snd] in *.
+  pose proof (broker_remove_session_allb (r_broker (r_set_dealer r2 d)) (r_pubgen (r_set_dealer r2 d)) sid) as B.
+  destruct (broker_remove_session _ _ sid) as [[b pg] o2]. cbn [snd] in B.
+  pose proof (meta_publish_all_allb (mps ++ testament_pubs r sid ++ [on_leave_pub s]) (r_set_broker (r_set_dealer r2 d) b pg)) as M.
+  pose proof (meta_publish_all_dealer (mps ++ testament_pubs r sid ++ [on_leave_pub s]) (r_set_broker (r_set_dealer r2 d) b pg)) as E.
+  destruct (meta_publish_all _ _) as [r5 o3]. cbn [fst snd] in *. cbn [r_dealer r_set_broker r_set_dealer] in E.
+  intros Back. constructor.
+  - apply noinv_app; [apply noinv_app; [exact D1|apply allb_noinv; exact B]|apply allb_noinv; exact M].
+  - rewrite E. apply iks_nm. exact D2.
+  - exact Back.
+  - intros y rid N0. left. rewrite E. eapply cle_not_callee; eauto.
+Qed.
+
+Lemma kill_sessions_qstep : forall sids r g, (forall x, bmsg (x, g) = true) ->
+    qstep r (snd (kill_sessions r sids g)) (fst (kill_sessions r sids g)).
+Proof.
+  induction sids as [|sid sids IH]; intros r g Hg; [apply qstep_refl|].
+  rewrite kill_sessions_cons. pose proof (leave_qstep r sid) as L.
+  destruct (leave r sid) as [r1 o1]. specialize (IH r1 g Hg).
+  destruct (kill_sessions r1 sids g) as [r2 o2]. cbn [fst snd] in *.
+  apply qstep_cons; [apply Hg|]. eapply qstep_seq; eauto.
+Qed.
+
+Lemma meta_call_kills_bmsg : forall r proc det args kw oracle sids g,
+    kills_of (meta_call r proc det args kw oracle) = Some (sids, g) -> forall x, bmsg (x, g) = true.
+Proof.
+  intros r proc det args kw oracle sids g. unfold meta_call, kills_of, goodbye_msg.
+  brk; cbn [snd]; intros H; inversion H; subst; clear H; intros x; reflexivity.
+Qed.
+
+Lemma meta_call_back : forall r proc det args kw oracle y sy',
+    lookup (realm_of (meta_call r proc det args kw oracle)) y = Some sy' ->
+    exists sy, lookup r y = Some sy /\ s_invgen sy <= s_invgen sy'.
+Proof.
+  intros r proc det args kw oracle y sy'.
+  destruct (meta_call_cases r proc det args kw oracle) as [E|[(sid & s & dd & F & Hm & E)|(c & p & Ec & [E|E])]];
+    cbv zeta in E; rewrite E; try (intros H; exists sy'; split; [exact H|lia]).
+  apply N.eqb_neq in Hm.
+  assert (Hl : lookup r sid = Some s) by (unfold lookup; destruct (N.eqb_spec sid meta_id); [contradiction|exact F]).
+  pose proof (find_session_id _ _ _ F) as Es.
+  rewrite (lookup_update r (set_details s dd) y) by (cbn [set_details s_id]; rewrite Es; congruence).
+  cbn [set_details s_id]. rewrite Es. destruct (N.eqb_spec y sid) as [->|Hn].
+  - intros H. inversion H; subst. exists s. split; [exact Hl|cbn; lia].
+  - intros H. exists sy'. split; [exact H|lia].
+Qed.
+
+(** the meta session answers an INVOCATION it was sent *)
+Lemma run_meta_invocation_meta_qstep : forall r invid regid det args kw oracle,
+    qstep r (snd (run_meta_invocation r [(meta_id, RInvocation invid regid det args kw)] oracle))
+            (fst (run_meta_invocation r [(meta_id, RInvocation invid regid det args kw)] oracle)).
+Proof.
+  intros r invid regid det args kw oracle. unfold run_meta_invocation. rewrite N.eqb_refl. cbn [negb].
+  destruct (nget (r_metaprocs r) regid) as [proc|].
+  - pose proof (meta_call_dealer r proc det args kw oracle) as Ed.
+    pose proof (meta_call_back r proc det args kw oracle) as Bk.
+    pose proof (meta_call_kills_bmsg r proc det args kw oracle) as Kg.
+    destruct (meta_call r proc det args kw oracle) as [[r1 resp] kills]. unfold realm_of, kills_of in *. cbn [fst snd] in *.
+    assert (Q1 : qstep r [] r1).
+    { constructor; [apply noinv_nil|rewrite Ed; apply iks_nm, iks_refl|exact Bk|]. intros y rid N0. left. now rewrite Ed. }
+    assert (G : forall d o1, (d, o1) = match resp with
+                                        | MYield a k0 => sync_yield (lookup r1) (r_dealer r1) meta_id invid [] a k0
+                                        | MError e => sync_error (r_dealer r1) meta_id invid [] e [] []
+                                        end -> dq (r_dealer r1) o1 d).
+    { intros d o1 E. destruct resp.
+      - pose proof (sync_yield_dq (lookup r1) (r_dealer r1) meta_id invid [] args0 kw0) as A. rewrite <- E in A. exact A.
+      - pose proof (sync_error_dq (r_dealer r1) meta_id invid [] err [] []) as A. rewrite <- E in A. exact A. }
+    destruct (match resp with MYield a k0 => _ | MError e => _ end) as [d o1].
+    specialize (G d o1 eq_refl).
+    assert (Q2 : qstep r o1 (r_set_dealer r1 d)).
+    { change o1 with ([] ++ o1). eapply qstep_seq; [exact Q1|]. eapply qstep_dealer; [exact G|reflexivity|reflexivity]. }
+    destruct kills as [[sids g]|]; [|exact Q2].
+    pose proof (kill_sessions_qstep sids (r_set_dealer r1 d) g (Kg sids g eq_refl)) as K.
+    destruct (kill_sessions (r_set_dealer r1 d) sids g) as [r3 o2]. cbn [fst snd] in *.
+    eapply qstep_seq; eauto.
+  - pose proof (sync_error_dq (r_dealer r) meta_id invid [] e_no_such_procedure [] []) as A.
+    destruct (sync_error _ _ _ _ _ _ _) as [d o1]. cbn [fst snd] in *.
+    eapply qstep_dealer; [exact A|reflexivity|reflexivity].
+Qed.
+
+Lemma qstep_noinv_same : forall r o, noinv o -> (forall m q rid, In m o -> snd m <> RRegistered q rid) -> qstep r o r.
+Proof.
+  intros r o A _. constructor; [exact A|apply iks_nm, iks_refl|apply back_same; reflexivity|auto].
+Qed.
+
+(** ** Realm level: a CALL routed to a client callee *)
+Definition inv_step (r : realm) (o : list out) (r' : realm) : Prop :=
+  exists y b rid det a kw,
+    o = [(y, RInvocation b rid det a kw)] /\ y <> meta_id /\
+    callees_le (r_dealer r) (r_dealer r') /\
+    (forall z sz', lookup r' z = Some sz' -> exists sz, lookup r z = Some sz /\ s_invgen sz <= s_invgen sz') /\
+    ((* a further chunk: the id of a pending invocation of [y] *)
+     (cget (d_invs (r_dealer r)) (y, b) <> None /\ ikeys_sub_nm (r_dealer r) (r_dealer r')) \/
+     (* a new call: the callee's generator + 1; [y] is a callee of registration [rid] *)
+     (exists sy sy' rg, lookup r y = Some sy /\ b = s_invgen sy + 1 /\ lookup r' y = Some sy' /\ s_invgen sy' = b /\
+        nget (d_regs (r_dealer r)) rid = Some rg /\ In y (reg_callees rg) /\
+        (forall k, cget (d_invs (r_dealer r')) k <> None -> k = (y, b) \/ cget (d_invs (r_dealer r)) k <> None))).
+
+Lemma run_meta_invocation_client : forall r y b rid det a kw oracle,
+    y <> meta_id ->
+    run_meta_invocation r [(y, RInvocation b rid det a kw)] oracle = (r, [(y, RInvocation b rid det a kw)]).
+Proof.
+  intros r y b rid det a kw oracle Hy. unfold run_meta_invocation.
+  destruct (N.eqb_spec y meta_id); [contradiction|reflexivity].
+Qed.
+
+Theorem handle_inv_facts : forall r s m oracle k,
+    realm_wf r -> ids_below k r -> k < max_idN -> find_session (r_clients r) (s_id s) = Some s ->
+    qstep r (snd (handle r s m oracle)) (fst (handle r s m oracle)) \/
+    inv_step r (snd (handle r s m oracle)) (fst (handle r s m oracle)).
+Proof.
+  intros r s m oracle k W I Hk Hs.
+  pose proof (rw_dealer r W) as Wd.
+  assert (Lv : forall r0 o0, qstep r r0 o0 -> True) by auto. clear Lv.
+  assert (LvQ : forall r0 o0, qstep r o0 r0 ->
+                 qstep r (o0 ++ snd (leave r0 (s_id s))) (fst (leave r0 (s_id s)))).
+  { intros r0 o0 Q. eapply qstep_seq; [exact Q|apply leave_qstep]. }
+  destruct m; cbn [handle].
+  - (* PUBLISH *) left.
+    pose proof (publish_allb (r_cfg r) (lookup r) (r_now r) (r_broker r) (r_pubgen r) s req opts topic args kw) as P.
+    destruct (publish _ _ _ _ _ _ _ _ _ _ _) as [[b pg] o]. cbn [snd] in P.
+    destruct (publish_aborts _ _ _ _).
+    + specialize (LvQ r o (qstep_broker r o r P eq_refl (fun _ => eq_refl))).
+      destruct (leave r (s_id s)) as [r1 o1]. exact LvQ.
+    + cbn [fst snd]. apply qstep_broker; [exact P|reflexivity|reflexivity].
+  - left. pose proof (subscribe_allb (r_cfg r) (r_broker r) (r_pubgen r) (s_id s) req opts topic) as P.
+    destruct (subscribe _ _ _ _ _ _ _) as [[b pg] o]. cbn [fst snd] in *.
+    apply qstep_broker; [exact P|reflexivity|reflexivity].
+  - left. pose proof (unsubscribe_allb (r_broker r) (r_pubgen r) (s_id s) req sub) as P.
+    destruct (unsubscribe _ _ _ _ _) as [[b pg] o]. cbn [fst snd] in *.
+    apply qstep_broker; [exact P|reflexivity|reflexivity].
+  - (* REGISTER *) left.
+    pose proof (register_noinv (r_cfg r) (r_dealer r) s req opts proc) as Rn.
+    pose proof (register_invs (r_cfg r) (r_dealer r) s req opts proc) as Ri.
+    pose proof (register_callees (r_cfg r) (r_dealer r) s req opts proc) as Rc.
+    destruct (register _ _ _ _ _ _) as [[d o] mps]. cbn [fst snd] in *.
+    assert (Q1 : qstep r o (r_set_dealer r d)).
+    { constructor; [exact Rn|apply iks_nm, iks_same; exact Ri|apply back_same; reflexivity|].
+      intros y rid N0. cbn [r_dealer r_set_dealer].
+      destruct (nget (d_regs d) rid) as [rg'|] eqn:Hr; [|left; intros rg H; congruence].
+      destruct (in_dec N.eq_dec y (reg_callees rg')) as [Hin|Hn].
+      - destruct (Rc rid rg' y (wf_regs _ _ Wd) Hr Hin) as [(rg & H0 & Hin0)|(-> & Ho)].
+        + exfalso. exact (N0 rg H0 Hin0).
+        + right. exists req. exact Ho.
+      - left. intros rg H. rewrite Hr in H. inversion H; subst. exact Hn. }
+    pose proof (meta_publish_all_allb mps (r_set_dealer r d)) as M.
+    pose proof (meta_publish_all_dealer mps (r_set_dealer r d)) as E.
+    pose proof (meta_publish_all_lookup mps (r_set_dealer r d)) as L.
+    destruct (meta_publish_all _ mps) as [r1 o1]. cbn [fst snd] in *.
+    eapply qstep_seq; [exact Q1|]. apply qstep_broker; [exact M|exact E|intros y; now rewrite L].
+  - (* UNREGISTER *) left.
+    pose proof (unregister_dq (r_dealer r) (s_id s) req reg) as D.
+    destruct (unregister _ _ _ _) as [[d o] mps]. cbn [fst snd] in *.
+    pose proof (meta_publish_all_allb mps (r_set_dealer r d)) as M.
+    pose proof (meta_publish_all_dealer mps (r_set_dealer r d)) as E.
+    pose proof (meta_publish_all_lookup mps (r_set_dealer r d)) as L.
+    destruct (meta_publish_all _ mps) as [r1 o1]. cbn [fst snd] in *.
+    eapply qstep_seq; [eapply (qstep_dealer r o (r_set_dealer r d)); [exact D|reflexivity|reflexivity]|].
+    apply qstep_broker; [exact M|exact E|intros y; now rewrite L].
+  - (* CALL *)
+    pose proof (lookup_ok_realm r (rw_meta_id r W)) as LOK.
+    pose proof (nowrap_below k r I Hk) as NW.
+    pose proof (call_inv_facts (r_cfg r) (lookup r) (r_now r) (r_dealer r) s req opts proc args kw oracle Wd LOK NW) as CF.
+    destruct (call _ _ _ _ _ _ _ _ _ _ _) as [d o|o|d callee' o] eqn:Ecall.
+    + left. cbn [fst snd]. eapply qstep_dealer; [exact CF|reflexivity|reflexivity].
+    + left. assert (Q : qstep r o r).
+      { constructor; [exact CF|apply iks_nm, iks_refl|apply back_same; reflexivity|auto]. }
+      specialize (LvQ r o Q). destruct (leave r (s_id s)) as [r1 o1]. exact LvQ.
+    + destruct CF as (Cle & y & b & rid & det & Eo & Ey & Kind).
+      set (r1 := update_session (r_set_dealer r d) callee').
+      assert (Hat : lookup (r_set_dealer r d) (s_id callee') <> None).
+      { rewrite Ey. change (lookup (r_set_dealer r d)) with (lookup r).
+        destruct Kind as [(_ & _ & Hl)|(c0 & rg & Hl & _)]; congruence. }
+      assert (Ed : r_dealer r1 = d).
+      { unfold r1. destruct (update_session_frame (r_set_dealer r d) callee') as (_ & _ & _ & -> & _). reflexivity. }
+      assert (Hge : forall c0, lookup r y = Some c0 -> s_invgen c0 <= s_invgen callee').
+      { intros c0 Hc0. destruct Kind as [(_ & _ & Hl)|(c1 & rg & Hl & Hb & Hb' & _)].
+        - assert (c0 = callee') by congruence. subst c0. lia.
+        - assert (c0 = c1) by congruence. subst c0. lia. }
+      assert (Back : forall z sz', lookup r1 z = Some sz' -> exists sz, lookup r z = Some sz /\ s_invgen sz <= s_invgen sz').
+      { intros z sz' H. unfold r1 in H. rewrite (lookup_update _ callee' z Hat) in H. rewrite Ey in H.
+        change (lookup (r_set_dealer r d) z) with (lookup r z) in H.
+        destruct (N.eqb_spec z y) as [->|Hn].
+        - inversion H; subst sz'. destruct (lookup r y) as [c0|] eqn:Hc0.
+          + exists c0. split; [reflexivity|apply Hge; reflexivity].
+          + exfalso. apply Hat. rewrite Ey. exact Hc0.
+        - exists sz'. split; [exact H|lia]. }
+      fold r1. destruct (N.eq_dec y meta_id) as [Hy|Hy].
+      * left. rewrite Eo, Hy.
+        assert (Q1 : qstep r [] r1).
+        { constructor; [apply noinv_nil| |exact Back|].
+          - rewrite Ed. destruct Kind as [(_ & Hk' & _)|(c0 & rg & _ & _ & _ & _ & _ & Hk')].
+            + apply iks_nm. exact Hk'.
+            + intros z i Hz H. destruct (Hk' _ H) as [E|E]; [exfalso; apply Hz; inversion E; congruence|exact E].
+          - intros z rid0 N0. left. rewrite Ed. eapply cle_not_callee; eauto. }
+        pose proof (run_meta_invocation_meta_qstep r1 b rid det args kw oracle) as Q2.
+        destruct (run_meta_invocation r1 _ oracle) as [r3 o3]. cbn [fst snd] in *.
+        change o3 with ([] ++ o3). eapply qstep_seq; eauto.
+      * right. rewrite Eo, (run_meta_invocation_client r1 y b rid det args kw oracle Hy). cbn [fst snd].
+        exists y, b, rid, det, args, kw. split; [reflexivity|]. split; [exact Hy|]. rewrite Ed.
+        split; [exact Cle|]. split; [exact Back|].
+        destruct Kind as [(Hk1 & Hk2 & _)|(c0 & rg & Hl & Hb & Hb' & Hr & Hin & Hk')].
+        -- left. split; [exact Hk1|apply iks_nm; exact Hk2].
+        -- right. exists c0, callee', rg. split; [exact Hl|]. split; [exact Hb|]. split.
+           ++ unfold r1. rewrite (lookup_update _ callee' y Hat), Ey, N.eqb_refl. reflexivity.
+           ++ split; [exact Hb'|]. split; [exact Hr|]. split; [exact Hin|exact Hk'].
+  - (* CANCEL *) left.
+    pose proof (cancel_dq (lookup r) (r_dealer r) (s_id s) req opts) as D.
+    destruct (cancel _ _ _ _ _) as [d o]. cbn [fst snd] in *.
+    eapply qstep_dealer; [exact D|reflexivity|reflexivity].
+  - (* YIELD *) left.
+    pose proof (sync_yield_dq (lookup r) (r_dealer r) (s_id s) req opts args kw) as D.
+    destruct (sync_yield _ _ _ _ _ _ _) as [d o]. cbn [fst snd] in *.
+    assert (Q : qstep r o (r_set_dealer r d)) by (eapply qstep_dealer; [exact D|reflexivity|reflexivity]).
+    destruct (yield_aborts _ _ _ _ _); [|exact Q].
+    specialize (LvQ (r_set_dealer r d) o Q). destruct (leave (r_set_dealer r d) (s_id s)) as [r1 o1]. exact LvQ.
+  - (* ERROR *) left. destruct (negb (ty =? c_INVOCATION)).
+    + pose proof (leave_qstep r (s_id s)) as L. destruct (leave r (s_id s)) as [r1 o1]. cbn [fst snd] in *.
+      apply qstep_cons; [reflexivity|exact L].
+    + pose proof (sync_error_dq (r_dealer r) (s_id s) req details err args kw) as D.
+      destruct (sync_error _ _ _ _ _ _ _) as [d o]. cbn [fst snd] in *.
+      eapply qstep_dealer; [exact D|reflexivity|reflexivity].
+  - left. pose proof (leave_qstep r (s_id s)) as L. destruct (leave r (s_id s)) as [r1 o1]. cbn [fst snd] in *.
+    apply qstep_cons; [reflexivity|exact L].
+  - left. pose proof (leave_qstep r (s_id s)) as L. destruct (leave r (s_id s)) as [r1 o1]. cbn [fst snd] in *.
+    apply qstep_cons; [reflexivity|exact L].
+Qed.
+
+(** a session joins *)
+Definition join_step (r : realm) (o : op) (out : list out) (r' : realm) : Prop :=
+  exists sid l h, o = OJoin sid l h /\ lookup r sid = None /\ noinv out /\ r_dealer r' = r_dealer r /\
+                  forall y, y <> sid -> lookup r' y = lookup r y.
+
+Theorem step_inv_facts : forall r o k,
+    realm_wf r -> ids_below k r -> k < max_idN -> op_ok o ->
+    qstep r (snd (step r o)) (fst (step r o)) \/
+    inv_step r (snd (step r o)) (fst (step r o)) \/
+    join_step r o (snd (step r o)) (fst (step r o)).
+Proof.
+  intros r o k W I Hk Ho.
+  destruct o as [sid lc h|sid m oracle|sid|ms].
+  - cbn [step]. unfold join.
+    destruct (negb (has_role h) || is_some (lookup r sid)) eqn:G; [left; apply qstep_refl|].
+    right; right. apply orb_false_iff in G. destruct G as [_ G].
+    assert (Hl : lookup r sid = None) by (destruct (lookup r sid); [discriminate|reflexivity]).
+    exists sid, lc, h. split; [reflexivity|]. split; [exact Hl|].
+    match goal with |- context [meta_publish ?R ?M] =>
+      pose proof (meta_publish_allb R M) as A; pose proof (meta_publish_dealer M R) as E;
+      pose proof (same_but_broker_lookup R _ (meta_publish_frame R M)) as L;
+      destruct (meta_publish R M) as [r1 o1] end.
+    cbn [fst snd] in *. split; [apply allb_noinv; exact A|]. split; [exact E|].
+    intros y Hy. rewrite L. unfold lookup. cbn [r_meta r_clients r_set_clients].
+    destruct (N.eqb y meta_id); [reflexivity|]. rewrite find_session_app.
+    destruct (find_session (r_clients r) y); [reflexivity|]. cbn [s_id].
+    destruct (N.eqb_spec sid y); [congruence|reflexivity].
+  - rewrite step_msg_eq. destruct (find_session (r_clients r) sid) as [s|] eqn:F; [|left; apply qstep_refl].
+    assert (Hs : find_session (r_clients r) (s_id s) = Some s) by now rewrite (find_session_id _ _ _ F).
+    destruct (gate r s m) as [m'|out] eqn:Eg.
+    + destruct (handle_inv_facts r s m' oracle k W I Hk Hs) as [Q|Q]; [now left|right; now left].
+    + left. cbn [fst snd]. destruct (gate_refusal_shape r s m out Eg) as [->|(det & e & a & ->)]; [apply qstep_refl|].
+      constructor; [now apply noinv_one|apply iks_nm, iks_refl|apply back_same; reflexivity|auto].
+  - left. cbn [step]. apply leave_qstep.
+  - left. cbn [step]. set (r1 := r_set_now r (r_now r + ms)).
+    pose proof (fire_timers_dq (lookup r1) (r_now r1) (r_dealer r1)) as D.
+    destruct (fire_timers _ _ _) as [d out]. cbn [fst snd] in *.
+    eapply (qstep_dealer r out _ d); [exact D|reflexivity|reflexivity].
+Qed.
+
+(** UNREGISTER answered UNREGISTERED: the session is no callee of that registration any more *)
+Theorem unregistered_not_callee : forall r sid s q rid q' oracle,
+    realm_wf r -> find_session (r_clients r) sid = Some s ->
+    gate r s (CUnregister q rid) = inl (CUnregister q rid) ->
+    In (sid, RUnregistered q') (snd (step r (OMsg sid (CUnregister q rid) oracle))) ->
+    not_callee sid rid (r_dealer (fst (step r (OMsg sid (CUnregister q rid) oracle)))).
+Proof.
+  intros r sid s q rid q' oracle W F Eg. rewrite step_msg_eq, F, Eg. cbn [handle].
+  pose proof (find_session_id _ _ _ F) as Es. rewrite Es.
+  pose proof (unregister_event_order (r_dealer r) sid q rid) as O.
+  pose proof (no_route_after_unregister_proof (lookup r) (r_dealer r) sid q rid) as NR.
+  destruct (unregister (r_dealer r) sid q rid) as [[d o] mps].
+  pose proof (meta_publish_all_allb mps (r_set_dealer r d)) as M.
+  pose proof (meta_publish_all_dealer mps (r_set_dealer r d)) as E.
+  destruct (meta_publish_all _ mps) as [r1 o1]. cbn [fst snd] in *. cbn [r_dealer r_set_dealer] in E.
+  intros Hin. rewrite E. apply in_app_or in Hin.
+  destruct O as [(_ & ->)|(-> & _)].
+  - exfalso. destruct Hin as [[H|[]]|H]; [discriminate H|]. specialize (M _ H). discriminate M.
+  - destruct (NR d mps (rw_dealer r W) eq_refl) as [_ N0]. exact N0.
+Qed.
